@@ -6,7 +6,8 @@ import itertools
 from ..core import Prop, Violation
 from .. import cffl
 from ..cffl import GATES, VERDICTS, Ob, cfg_line, BUDGETS, BIG_ADVANCES, DAY, real_prompt
-from ..extract import e2
+from ..extract import e2, py2lean_breaker
+from .. import core
 
 TTL = 300_000_000
 TMO = 60_000_000
@@ -43,7 +44,7 @@ class C08(Prop):
     fixed_prefix = 1
     quick_budget = 2500
     thorough_budget = 60000
-    extractors = ["E2"]
+    extractors = ["E2", "py2lean-breaker"]
     all_branches = (["energy:refused", "k:circuit_open", "k:cache_hit", "k:agent_exc", "k:gated_success", "k:gated_neither",
                      "k:gated_failure", "k:raised", "tr:closed>open", "tr:open>half_open", "tr:half_open>closed",
                      "tr:half_open>open", "tr:open>closed:reset", "tr:half_open>closed:reset"]
@@ -63,7 +64,7 @@ class C08(Prop):
         self.impl = cffl.Impl()
 
     def extract(self, ctx):
-        return e2.extract()
+        return e2.extract() + py2lean_breaker.run(core.REPO, core.LEAN, core.write_if_changed)
 
     # --- generation --------------------------------------------------------------------------------------
     def _history(self, events, thr, tmo=TMO, gate="and", breaker=True, cache=True, note="", budget=None):
